@@ -65,18 +65,18 @@ class YosysStructuralTranslatorL4(
             _subcomp_ifc_port_gen( d, msb, ifc_id+"__"+str(i), id_, n_dim[1:] )
         return ret
 
-    def _subcomp_ifc_conn_gen( d, cpid, _pid, cwid, _wid, idx, n_dim ):
+    def _subcomp_ifc_conn_gen( d, cpid, _pid, cwid, _wid, idx, n_dim, ifc_idx = "" ):
+      # ifc_idx: indices into the interface array, outer dimension first
       if not n_dim:
         pid = cpid + "__" + _pid
         wid = cwid + "__" + _wid
-        return [ { "direction" : d, "pid" : pid, "wid" : wid, "idx" : idx } ]
+        return [ { "direction" : d, "pid" : pid, "wid" : wid, "idx" : ifc_idx + idx } ]
       else:
         ret = []
         for i in range( n_dim[0] ):
           _cpid = f"{cpid}__{i}"
-          _idx = f"[{i}]{idx}"
           ret += \
-            _subcomp_ifc_conn_gen( d, _cpid, _pid, cwid, _wid, _idx, n_dim[1:] )
+            _subcomp_ifc_conn_gen( d, _cpid, _pid, cwid, _wid, idx, n_dim[1:], f"{ifc_idx}[{i}]" )
         return ret
 
     ifc_n_dim = ifc_array_type["n_dim"]
@@ -172,11 +172,12 @@ class YosysStructuralTranslatorL4(
                                     None if obj is None else obj[i] )
         return ret
 
-    def _subcomp_conn_gen( d, cpid, _pid, cwid, _wid, idx, n_dim ):
+    def _subcomp_conn_gen( d, cpid, _pid, cwid, _wid, idx, n_dim, c_idx = "" ):
+      # c_idx: indices into the component array, outer dimension first
       if d.startswith( "input" ):
-        template = "assign {pid} = {wid}{idx};"
+        template = "assign {pid} = {wid}{c_idx}{idx};"
       else:
-        template = "assign {wid}{idx} = {pid};"
+        template = "assign {wid}{c_idx}{idx} = {pid};"
       if not n_dim:
         pid = f"{cpid}__{_pid}"
         wid = f"{cwid}__{_wid}"
@@ -185,8 +186,7 @@ class YosysStructuralTranslatorL4(
         ret = []
         for i in range( n_dim[0] ):
           _cpid = f"{cpid}__{i}"
-          _idx = f"[{i}]{idx}"
-          ret += _subcomp_conn_gen( d, _cpid, _pid, cwid, _wid, _idx, n_dim[1:] )
+          ret += _subcomp_conn_gen( d, _cpid, _pid, cwid, _wid, idx, n_dim[1:], f"{c_idx}[{i}]" )
         return ret
 
     wire_template = "logic {packed_type: <8} {id_}{array_dim_str};"
